@@ -43,6 +43,7 @@ CONSTANTS Unary, Subs, Notifs, Retry,   \* sets of call tokens by kind
           Reconnect,                     \* the client has a connection factory
           MaxAttempts,                   \* attempts of a retry-tagged call
           FixExitOrder,                  \* TRUE: exit stops and waits for the frame executor before closing channels (candidate repair)
+          FixReadErr,                    \* TRUE: a failed ReadAll marks the connection unusable (repair 2fd3038); FALSE shows the old defect
           FixStaleDelete                 \* TRUE: handleResponse deletes the in-flight entry only if it still is the request it delivered to
 
 Calls == Unary \cup Subs \cup Notifs \cup Retry
@@ -73,7 +74,7 @@ Ok(k)   == <<"ok", k>>
 
 Init ==
   /\ cst = [k \in Calls |-> "idle"] /\ cres = [k \in Calls |-> <<"none">>] /\ ready = [k \in Calls |-> <<>>]
-  /\ attempts = [k \in Calls |-> 0] /\ cancelled = [k \in Calls |-> FALSE] /\ cancelSt = [k \in Calls |-> "none"]
+  /\ attempts = [k \in Calls |-> 1] /\ cancelled = [k \in Calls |-> FALSE] /\ cancelSt = [k \in Calls |-> "none"]
   /\ inflight = {} /\ gen = 0 /\ incErr = FALSE /\ rd = "wait" /\ rdGen = 0 /\ rdMsg = <<"none">>
   /\ execQ = <<>> /\ ex = <<"idle">> /\ mainpc = <<"select">> /\ rc = "none" /\ readErrCh = 0 /\ stopped = FALSE /\ exited = FALSE
   /\ chanH = {} /\ sinkSt = [k \in Subs |-> "none"] /\ sinkQ = [k \in Subs |-> <<>>] /\ recv = [k \in Subs |-> <<>>]
@@ -86,8 +87,8 @@ AtSelect == mainpc = <<"select">>
 
 (* ================================ callers ================================ *)
 \* client.go handleRpcCall -> sendRequest -> doRequest: about to send on the unbuffered requests channel
-CallStart(k) == /\ cst[k] = "idle" /\ cst' = [cst EXCEPT ![k] = "enq"] /\ attempts' = [attempts EXCEPT ![k] = @ + 1]
-                /\ UNCHANGED <<cres, ready, cancelled, cancelSt, connVars, chanVars, netVars, srvVars>>
+CallStart(k) == /\ cst[k] = "idle" /\ cst' = [cst EXCEPT ![k] = "enq"]
+                /\ UNCHANGED <<cres, ready, attempts, cancelled, cancelSt, connVars, chanVars, netVars, srvVars>>
 \* case <-c.exiting: return error
 CallExitErr(k) == /\ cst[k] = "enq" /\ exited
                   /\ cst' = [cst EXCEPT ![k] = "done"] /\ cres' = [cres EXCEPT ![k] = ExitErr]
@@ -97,10 +98,10 @@ CallReturn(k) == /\ cst[k] = "wait" /\ Len(ready[k]) > 0
                  /\ LET r == Head(ready[k]) IN
                     IF k \in Retry /\ r = ConnErr /\ attempts[k] < MaxAttempts
                     THEN /\ cst' = [cst EXCEPT ![k] = "idle"] /\ ready' = [ready EXCEPT ![k] = <<>>]   \* fresh ready channel per attempt
-                         /\ UNCHANGED cres
+                         /\ attempts' = [attempts EXCEPT ![k] = @ + 1] /\ UNCHANGED cres
                     ELSE /\ cst' = [cst EXCEPT ![k] = "done"] /\ cres' = [cres EXCEPT ![k] = r]
-                         /\ ready' = [ready EXCEPT ![k] = Tail(@)]
-                 /\ UNCHANGED <<attempts, cancelled, cancelSt, connVars, chanVars, netVars, srvVars>>
+                         /\ ready' = [ready EXCEPT ![k] = Tail(@)] /\ UNCHANGED attempts
+                 /\ UNCHANGED <<cancelled, cancelSt, connVars, chanVars, netVars, srvVars>>
 \* the caller's context is cancelled (application)
 CtxCancel(k) == /\ AllowCancel /\ ~cancelled[k] /\ cst[k] # "idle" /\ k \notin Notifs
                 /\ cancelled' = [cancelled EXCEPT ![k] = TRUE]
@@ -219,7 +220,7 @@ RdFrameOk == /\ rd = "reading" /\ rdMsg[1] # "trunc"
              /\ UNCHANGED <<callerVars, inflight, gen, incErr, rdGen, ex, mainpc, rc, readErrCh, stopped, exited, chanVars, netVars, srvVars>>
 \* ReadAll fails inside the frame: incomingErr = err (repair), readError <- err
 RdFrameFail == /\ rd = "reading" /\ rdMsg[1] = "trunc"
-               /\ readErrCh' = 1 /\ incErr' = TRUE /\ rdMsg' = <<"none">> /\ rd' = "none"
+               /\ readErrCh' = 1 /\ incErr' = (IF FixReadErr THEN TRUE ELSE incErr) /\ rdMsg' = <<"none">> /\ rd' = "none"
                /\ UNCHANGED <<callerVars, inflight, gen, rdGen, execQ, ex, mainpc, rc, stopped, exited, chanVars, netVars, srvVars>>
 
 (* ================================ frame executor ================================ *)
